@@ -36,7 +36,7 @@
 #define MAXF 16
 
 typedef struct {
-  rfbClientPtr cl; int used, freed, memfreed, nnew, ngone, nclose, sfd, pfd, peer_open, nwr, appfd, http; vs_buf rx;
+  rfbClientPtr cl; int used, freed, memfreed, nnew, ngone, nclose, sfd, pfd, peer_open, nwr, appfd, http, inetd; vs_buf rx;
 } conn_t;
 
 static conn_t C[MAXC];
@@ -58,6 +58,7 @@ static pend_t pend[MAXC]; static int npend, pend_head;
 static pend_t hpend[MAXC]; static int nhpend, hpend_head;     /* peers waiting on the HTTP listening descriptor */
 static int g_setfl, setfl_fail[MAXF], nsetfl_fail;           /* fcntl(F_SETFL) calls of the library on connection descriptors */
 static int g_inetd_k = -1;
+static int g_setfl_oneshot;      /* n > 0: the n-th next F_SETFL on a connection descriptor fails (decision 'n' / 'm') */
 static int g_devnull = -1, g_lost;
 
 ssize_t __real_read(int, void *, size_t);
@@ -188,6 +189,7 @@ int __wrap_accept(int fd, struct sockaddr *a, socklen_t *l) {
     k = make_conn(p->closed, p->pre, p->npre);
     if (k < 0) { errno = EMFILE; return -1; }
     next_decision = p->decision;
+    g_setfl_oneshot = p->decision == 'n' ? 1 : p->decision == 'm' ? 2 : 0;   /* rfbSetNonBlocking fails: 1st call (rfbNewConnectionFromSock) / 2nd (rfbNewClient) */
     return C[k].sfd;
   }
   if (in_lib && fd == HTTP_FD) {
@@ -207,6 +209,7 @@ int __wrap_accept(int fd, struct sockaddr *a, socklen_t *l) {
 static int setfl_hook(int fd, int cmd) {
   if (in_lib && cmd == F_SETFL && conn_of_sfd(fd) >= 0) {
     int idx = g_setfl++, i;
+    if (g_setfl_oneshot > 0 && --g_setfl_oneshot == 0) { errno = EINVAL; return 1; }
     for (i = 0; i < nsetfl_fail; i++) if (setfl_fail[i] == idx) { errno = EINVAL; return 1; }
   }
   return 0;
@@ -353,6 +356,7 @@ static void observe(const char *op) {
   } else printf(" ref=- max=- ptr=- sc=-");
   for (k = 0; k < nconn; k++) {
     conn_t *c = &C[k];
+    if (c->inetd && !c->cl && !c->freed && !c->nclose) continue;
     if (c->http && !c->cl && !c->freed && !c->nclose) {
       printf(" | %d:http,n%d,g%d,x%d,w%d,fd%d", k, c->nnew, c->ngone, c->nclose, c->nwr, sock_open(c));    /* waiting as httpSock */
     } else if (c->freed || !c->cl) {
@@ -420,6 +424,7 @@ static void reset_case(void) {
   if (fd_is_open(LISTEN_WR)) __real_close(LISTEN_WR);
   if (fd_is_open(HTTP_FD)) __real_close(HTTP_FD);
   if (fd_is_open(HTTP_WR)) __real_close(HTTP_WR);
+  g_setfl_oneshot = 0;
   npend = 0; pend_head = 0; nhpend = 0; hpend_head = 0; g_setfl = 0; nsetfl_fail = 0; g_inetd_k = -1;
   memset(C, 0, sizeof C); memset(fault_hit, 0, sizeof fault_hit);
   nconn = 0; S = NULL; cleaned = 0; hung = 0; g_ioc = 0; g_bad = 0; g_busy = 0; nfault = 0; force_to_fd = -1;
@@ -447,7 +452,9 @@ static void do_op(char *line) {
     if (k < 0) { observe("accept-overflow"); return; }
     c = &C[k];
     next_decision = a1[0];
+    g_setfl_oneshot = (a1[0] == 'n' || a1[0] == 'm') ? 1 : 0;          /* rfbSetNonBlocking fails inside rfbNewClient */
     LIB(cl = rfbNewClient(S, c->sfd));
+    g_setfl_oneshot = 0;
     if (!cl) { c->freed = 1; c->cl = NULL; } else c->cl = cl;
   } else if (!strcmp(op, "laccept")) {
     if (npend < MAXC && fd_is_open(LISTEN_WR)) {
@@ -473,7 +480,8 @@ static void do_op(char *line) {
     if (!closed && a2[0]) n = unhex(a2, b, sizeof b);
     k = make_conn(closed, b, n);
     if (k >= 0) {
-      next_decision = a1[0]; g_inetd_k = k; C[k].http = 1 + a1[0];   /* printed as waiting until it becomes a client */
+      next_decision = a1[0]; g_inetd_k = k; C[k].inetd = 1;          /* not a connection of the screen until rfbCheckFds hands it over (or rfbShutdownSockets closes it) */
+      g_setfl_oneshot = (a1[0] == 'n' || a1[0] == 'm') ? 1 : 0;
       S->listenSock = -1;                                       /* an inetd server does not listen */
       S->inetdSock = C[k].sfd; S->inetdInitDone = FALSE;
       FD_ZERO(&S->allFds); FD_SET(C[k].sfd, &S->allFds); S->maxFd = C[k].sfd;   /* what rfbInitSockets does for inetdSock */
@@ -486,6 +494,7 @@ static void do_op(char *line) {
     if (k < nconn && C[k].peer_open) { drain_all(); __real_close(C[k].pfd); C[k].peer_open = 0; }
   } else if (!strcmp(op, "pe")) {
     LIB(rfbProcessEvents(S, 0));
+    g_setfl_oneshot = 0;
   } else if (!strcmp(op, "appclose")) {
     k = atoi(a1);
     if (k < nconn && !C[k].freed && C[k].cl) LIB(rfbCloseClient(C[k].cl));
